@@ -135,6 +135,24 @@ def mat_close(A, B, rel=1e-7, abs_=1e-8):
 
 
 EVALS = ("jacobian", "grad", "diff_jacobian", "grad_jacobian", "grad_grad", "transitionJacobian", "transitionMean", "transitionVar")
+
+REVERSED = ("ode",) + tuple(reversed(EVALS))
+
+
+def call_order(key, k):
+    """the order in which the evaluators are called (each one compiles and caches its own symbolic object, possibly out of
+    another's): as declared, `ode` first and then the higher-order objects BEFORE the lower-order ones they could be built
+    from, or shuffled - drawn from the case (deterministic), a different draw for every call site `k`"""
+    import zlib
+    r = random.Random(zlib.crc32(("%s|%s" % (key, k)).encode()))
+    mode = r.choice(("declared", "reversed", "reversed", "shuffled"))
+    if mode == "declared":
+        return mode, EVALS + ("ode",)
+    if mode == "reversed":
+        return mode, REVERSED
+    o = list(EVALS + ("ode",)); r.shuffle(o)
+    return mode, tuple(o)
+
 TOL = {"jacobian": 1e-7, "grad": 1e-7, "diff_jacobian": 1e-6, "grad_jacobian": 1e-6, "grad_grad": 1e-6, "transitionJacobian": 1e-7,
        "transitionMean": 1e-7, "transitionVar": 1e-7, "ode": 1e-9}
 HISTORY_LABELS = ("reassigned", "restored", "after-sibling", "after-copy", "copy-after-original", "after-caller-wrote-into-results")
@@ -229,7 +247,9 @@ class Session(object):
             self.tags.append("touch:parameters-not-settable")
             return
         got = {}
-        for name in EVALS + ("ode",):
+        mode, order = call_order(json.dumps(self.spec, sort_keys=True), "touch:%s" % upto)
+        self.tags.append("touch-order:" + mode)
+        for name in order:
             try:
                 got[name] = np.array(getattr(m, name)(x, t), dtype=float)
             except Exception:
@@ -323,7 +343,9 @@ class Session(object):
                 if freeze(th) != fth:
                     # a pure side effect (the values judged below decide): tagged, not a violation of this property
                     tags.append("side-effect:parameters-object-modified:" + form["p"])
-            for name in EVALS + ("ode",):
+            mode, order = call_order(json.dumps(self.spec, sort_keys=True), "step:%s:%s" % (self.who, label))
+            tags.append("call-order:" + mode)
+            for name in order:
                 v = self.kept.call(model, name, x, t, label)
                 if name == "grad_grad" and v.shape != self.shape[name]:
                     viol.append({"what": self.who + "grad_grad(x,t) has shape %s, expected %s" % (v.shape, self.shape[name]),
